@@ -242,6 +242,7 @@ class VariantSpec:
     docs: List[str] = field(default_factory=list)
     props: List[Tuple[str, dict]] = field(default_factory=list)   # (key, literal token)
     disc_passthrough: List[str] = field(default_factory=list)     # strum_discriminants(..) on the variant
+    raw_ident: bool = False         # written as r#ident (keyword): the oracle does not model the name of such a variant
     other_attrs: List[str] = field(default_factory=list)
 
     # ---- derived ----
@@ -306,6 +307,11 @@ class EnumSpec:
 
     def ci(self, v: VariantSpec) -> bool:
         return v.aci if v.aci is not None else self.aci
+
+    def names_modelled(self) -> bool:
+        """False when a variant without explicit spelling is a raw identifier: what its 'identifier' is as a string (with or
+        without `r#`) is not fixed by the properties, so name-comparing checks skip the enum; relational checks still use it."""
+        return not any(v.raw_ident and not v.has_explicit_name() for v in self.variants)
 
     def enabled(self) -> List[VariantSpec]:
         return [v for v in self.variants if not v.disabled]
@@ -382,6 +388,7 @@ def _parse_variant(idx: int, v: dict) -> VariantSpec:
                         raise Unmodelled("field meta " + m.key)
         fields.append(fs)
     vs = VariantSpec(v["name"], idx, v["kind"], fields, v.get("disc_expr"))
+    vs.raw_ident = bool(v.get("raw_ident"))
     for a in v["attrs"]:
         p = a["path"]
         if p == "doc":
